@@ -15,6 +15,8 @@ nothing is evaluated:
                         statements with parameters renamed to the arguments and locals made unique
 
   const_getattr         `getattr(x, "name")` -> `x.name`
+  split_chain_loops     `for T in chain(A, B): S` -> the loop over A followed by the loop over B;  `for c, x in zip(repeat(K), X)` -> the
+                        loop over X with c = K
 
 A transformation that cannot be applied safely (re-assigned names, break/continue, *args, generators, early returns) leaves the
 code as it is; the rules then see the original spelling."""
@@ -973,9 +975,105 @@ def index_loops_to_enumerate(func):
     return func
 
 
+# --------------------------------------------------------------------------------------------- loops over concatenated iterables
+
+def _chain_parts(e):
+    """[A, B, ..] when e is itertools.chain(A, B, ..), possibly wrapped in list() / tuple() / iter(); else None"""
+    while isinstance(e, ast.Call) and isinstance(e.func, ast.Name) and e.func.id in ("list", "tuple", "iter") and len(e.args) == 1 and not e.keywords:
+        e = e.args[0]
+    if isinstance(e, ast.Call) and ast.unparse(e.func) in ("chain", "itertools.chain") and len(e.args) >= 2 and not e.keywords \
+            and not any(isinstance(a, ast.Starred) for a in e.args):
+        return list(e.args)
+    return None
+
+
+def _repeat_const(e):
+    return e.args[0] if isinstance(e, ast.Call) and ast.unparse(e.func) in ("repeat", "itertools.repeat") and len(e.args) == 1 and not e.keywords \
+        and isinstance(e.args[0], ast.Constant) else None
+
+
+def split_chain_loops(func):
+    """Loop fission over concatenated iterables:
+        for T in chain(A, B): S                 ->   for T in A: S;  for T in B: S         (S has no break; no else clause)
+        for c, x in zip(repeat(K), X): S        ->   for x in X: S[c := K]                 (K a constant, c not re-bound in S)
+    A local bound once to [list(]chain(..)[)] and read only as the iterable of for-loops (once, unless it is a list / tuple) stands for
+    that expression.  `for sign, i in chain(zip(repeat(" - "), R), zip(repeat(" + "), P))` is then the loss loop followed by the gain loop."""
+    if not any(isinstance(n, ast.Call) and ast.unparse(n.func) in ("chain", "itertools.chain", "repeat", "itertools.repeat") for n in ast.walk(func)):
+        return func
+    stores, loads = {}, {}
+    for n in ast.walk(func):
+        if isinstance(n, ast.Name):
+            d = stores if isinstance(n.ctx, (ast.Store, ast.Del)) else loads
+            d[n.id] = d.get(n.id, 0) + 1
+    bound = {}
+
+    def bindings(stmts):
+        """chain-valued locals of this block whose every read is the iterable of a for-loop later in the SAME block, with nothing in
+        between re-binding the local or a name its value mentions"""
+        for i, n in enumerate(stmts):
+            if isinstance(n, ast.Assign) and len(n.targets) == 1 and isinstance(n.targets[0], ast.Name) and stores.get(n.targets[0].id) == 1 and _chain_parts(n.value) is not None:
+                name = n.targets[0].id
+                uses = [j for j in range(i + 1, len(stmts)) if isinstance(stmts[j], ast.For) and isinstance(stmts[j].iter, ast.Name) and stmts[j].iter.id == name]
+                reusable = isinstance(n.value, ast.Call) and isinstance(n.value.func, ast.Name) and n.value.func.id in ("list", "tuple")
+                free = _loaded(n.value) | {name}
+                ok_parts = all(_pure(a) or _repeat_const(a) is not None or (isinstance(a, ast.Call) and isinstance(a.func, ast.Name) and a.func.id == "zip" and not a.keywords
+                               and all(_pure(z) or _repeat_const(z) is not None for z in a.args)) for a in _chain_parts(n.value))
+                if uses and len(uses) == loads.get(name, 0) and (reusable or len(uses) == 1) and ok_parts and not (free & _stored(stmts[i + 1:uses[-1] + 1])):
+                    bound[name] = n
+
+    def one(loop):
+        """the loops `loop` stands for"""
+        it = bound[loop.iter.id].value if isinstance(loop.iter, ast.Name) and loop.iter.id in bound else loop.iter
+        parts = _chain_parts(it)
+        if parts is not None and not loop.orelse and not any(isinstance(x, ast.Break) for st in loop.body for x in ast.walk(st)):
+            out = []
+            for p_ in parts:
+                new = ast.For(target=copy.deepcopy(loop.target), iter=copy.deepcopy(p_), body=[copy.deepcopy(st) for st in loop.body], orelse=[], type_comment=None)
+                out.extend(one(ast.copy_location(new, loop)))
+            return out
+        if isinstance(it, ast.Call) and isinstance(it.func, ast.Name) and it.func.id == "zip" and not it.keywords and isinstance(loop.target, (ast.Tuple, ast.List)) \
+                and len(loop.target.elts) == len(it.args) and not any(isinstance(a, ast.Starred) for a in it.args):
+            consts = {i: _repeat_const(a) for i, a in enumerate(it.args)}
+            fixed = {i: k for i, k in consts.items() if k is not None and isinstance(loop.target.elts[i], ast.Name)}
+            names = {loop.target.elts[i].id for i in fixed}
+            if fixed and len(fixed) < len(it.args) and not (names & _rebound(loop.body)):
+                keep = [i for i in range(len(it.args)) if i not in fixed]
+                m = {loop.target.elts[i].id: k for i, k in fixed.items()}
+                loop.body = [_Subst(dict(m)).visit(st) for st in loop.body]
+                if len(keep) == 1:
+                    loop.target, loop.iter = loop.target.elts[keep[0]], it.args[keep[0]]
+                else:
+                    loop.target = ast.Tuple(elts=[loop.target.elts[i] for i in keep], ctx=ast.Store())
+                    loop.iter = ast.Call(func=it.func, args=[it.args[i] for i in keep], keywords=[])
+                ast.fix_missing_locations(loop)
+        return [loop]
+
+    def block(stmts):
+        out = []
+        bindings(stmts)
+        for st in stmts:
+            if isinstance(st, (ast.FunctionDef, ast.ClassDef, ast.AsyncFunctionDef)):
+                out.append(st)
+                continue
+            for fld in ("body", "orelse", "finalbody"):
+                b = getattr(st, fld, None)
+                if isinstance(b, list) and b and isinstance(b[0], ast.stmt):
+                    setattr(st, fld, block(b))
+            if isinstance(st, ast.Try):
+                for h in st.handlers:
+                    h.body = block(h.body)
+            if any(st is n for n in bound.values()):
+                continue                       # the binding is replaced by its uses
+            out.extend(one(st) if isinstance(st, ast.For) else [st])
+        return out
+    func.body = block(func.body) or [ast.Pass()]
+    return ast.fix_missing_locations(func)
+
+
 def normalize_function(func, tables: dict | None = None):
     """the local normalisations (no knowledge of other functions needed); `tables`: module-level literal tables (module_tables)"""
     try:
+        split_chain_loops(func)
         specialise_dispatch(func)
         inline_local_defs(func)
         index_loops_to_enumerate(func)
